@@ -111,8 +111,11 @@ Apply(fn, a) ==
     [] fn = "oct" -> IF n # 1 THEN Undef ELSE IF ~IsIntText(a[1]) THEN Wrong ELSE IF IntOf(a[1]) < 0 THEN Undef ELSE Text(ToBase(IntOf(a[1]), 8))
     [] fn = "abs" -> IF n # 1 THEN Undef ELSE IF ~IsIntText(a[1]) THEN Wrong ELSE IntR(IF IntOf(a[1]) < 0 THEN 0 - IntOf(a[1]) ELSE IntOf(a[1]))
     [] fn = "power" -> IF n # 2 THEN Undef ELSE IF ~IsIntText(a[1]) \/ ~IsIntText(a[2]) THEN Wrong
-                       ELSE IF IntOf(a[2]) < 0 \/ IntOf(a[2]) > 9 \/ IntOf(a[1]) > 20 \/ IntOf(a[1]) < -20 THEN Undef
-                       ELSE IntR(IPow(IntOf(a[1]), IntOf(a[2])))
+                       ELSE IF IntOf(a[2]) < 0 \/ IntOf(a[2]) > 80 \/ IntOf(a[1]) > 20 \/ IntOf(a[1]) < -20 THEN Undef
+                       ELSE IF IntOf(a[2]) <= 6 THEN IntR(IPow(IntOf(a[1]), IntOf(a[2])))
+                       \* larger powers of 2 and 10 are exactly representable and must be printed in full
+                       ELSE IF IntOf(a[1]) = 2 \/ (IntOf(a[1]) = 10 /\ IntOf(a[2]) <= 22) THEN [k |-> "big", n |-> Pow(IntOf(a[1]), IntOf(a[2]))]
+                       ELSE Undef
     [] fn = "sqrt" -> IF n # 1 THEN Undef ELSE IF ~IsIntText(a[1]) THEN Wrong ELSE IF IntOf(a[1]) < 0 THEN Undef
                       ELSE IF IsSquare(IntOf(a[1])) THEN IntR(SqrtOf(IntOf(a[1]))) ELSE [k |-> "sqrt", v |-> IntOf(a[1])]
     [] fn = "log" -> IF n # 1 THEN Undef ELSE IF ~IsIntText(a[1]) THEN Wrong
@@ -131,9 +134,15 @@ Apply(fn, a) ==
     [] fn = "dow" -> IF n # 1 THEN Undef ELSE IF IsDateText(a[1]) THEN IntR(Dow(a[1])) ELSE Wrong
     [] OTHER -> Undef
 
+RECURSIVE LimbDigits(_, _)
+LimbDigits(a, i) == IF i = 0 THEN <<>> ELSE LET v == a[i] IN
+                      <<DigitL[(v \div 1000) + 1], DigitL[((v \div 100) % 10) + 1], DigitL[((v \div 10) % 10) + 1], DigitL[(v % 10) + 1]>> \o LimbDigits(a, i - 1)
+BigDigits(a) == IF a = <<>> THEN <<"0">> ELSE DigitsOfNat(a[Len(a)]) \o LimbDigits(a, Len(a) - 1)
+
 (* the text a result stands for when it is passed on to an enclosing function; <<"?">> marks "not a definite text" *)
 AsText(x) == CASE x.k = "text" -> [ok |-> TRUE, c |-> x.c]
                [] x.k = "int" -> [ok |-> TRUE, c |-> (IF x.v < 0 THEN <<"-">> \o DigitsOfNat(0 - x.v) ELSE DigitsOfNat(x.v))]
+               [] x.k = "big" -> [ok |-> FALSE, c |-> BigDigits(x.n)]      \* printed digits beyond 2^53 are not fixed
                [] OTHER -> [ok |-> FALSE, c |-> <<>>]
 
 (* printed duration: <n><unit> items separated by commas; units d h m s ms (and the micro sign) *)
